@@ -391,10 +391,59 @@ def fold_constants(tree):
     return n
 
 
+def desugar_context_managers(tree):
+    """`with _cm(a, b): BODY`, where `_cm` is a module-level generator decorated with contextlib.contextmanager whose body is
+    `try: yield  except ...: H  [finally: F]`, becomes `try: BODY  except ...: H[params := a, b]  [finally: F]` - the
+    "extract the duplicated except branches into a context manager" refactoring undone."""
+    import copy
+    cms = {}
+    for st in tree.body:
+        if isinstance(st, ast.FunctionDef) and any((isinstance(d, ast.Attribute) and d.attr == "contextmanager") or
+                                                   (isinstance(d, ast.Name) and d.id == "contextmanager") for d in st.decorator_list):
+            body = [x for x in st.body if not (isinstance(x, ast.Expr) and isinstance(x.value, ast.Constant))]
+            if len(body) == 1 and isinstance(body[0], ast.Try) and len(body[0].body) == 1 and isinstance(body[0].body[0], ast.Expr) \
+                    and isinstance(body[0].body[0].value, ast.Yield) and body[0].body[0].value.value is None and \
+                    not st.args.vararg and not st.args.kwarg and not body[0].orelse:
+                cms[st.name] = (st, body[0])
+    if not cms:
+        return 0
+    n = 0
+
+    class W(ast.NodeTransformer):
+        def visit_With(self, w):
+            nonlocal n
+            self.generic_visit(w)
+            if len(w.items) == 1 and w.items[0].optional_vars is None and isinstance(w.items[0].context_expr, ast.Call) and \
+                    isinstance(w.items[0].context_expr.func, ast.Name) and w.items[0].context_expr.func.id in cms:
+                fn, tr = cms[w.items[0].context_expr.func.id]
+                call = w.items[0].context_expr
+                params = [a.arg for a in fn.args.args]
+                if len(call.args) > len(params) or any(k.arg not in params for k in call.keywords):
+                    return w
+                binding = dict(zip(params, call.args))
+                binding.update({k.arg: k.value for k in call.keywords})
+                if set(binding) != set(params):
+                    return w
+
+                class S(ast.NodeTransformer):
+                    def visit_Name(self, nm):
+                        if nm.id in binding and isinstance(nm.ctx, ast.Load):
+                            return ast.copy_location(copy.deepcopy(binding[nm.id]), nm)
+                        return nm
+                new = ast.Try(body=w.body, handlers=[S().visit(copy.deepcopy(h)) for h in tr.handlers], orelse=[],
+                              finalbody=[S().visit(copy.deepcopy(x)) for x in tr.finalbody])
+                n += 1
+                return ast.fix_missing_locations(ast.copy_location(new, w))
+            return w
+    W().visit(tree)
+    return n
+
+
 def canonicalise(tree):
     """canonical form of every function of a module, in place: module-level literal constants propagated, comparisons oriented,
     branches normalised, single-use temporaries folded into their use"""
     n = propagate_module_constants(tree)
+    n += desugar_context_managers(tree)
     n += fold_constants(tree)
     n += orient_comparisons(tree)
     for fn in [x for x in ast.walk(tree) if isinstance(x, (ast.FunctionDef, ast.AsyncFunctionDef))]:
